@@ -26,6 +26,7 @@ type c17Src struct {
 	empties    int
 	closed     int
 	afterClose int
+	closeErr   error // what closing the underlying stream reports
 }
 
 func (s *c17Src) Read(p []byte) (int, error) {
@@ -64,7 +65,7 @@ func (s *c17Src) Read(p []byte) (int, error) {
 
 func (s *c17Src) Close() error {
 	s.closed++
-	return nil
+	return s.closeErr
 }
 
 // VerifC17Probe: arbitrary sequences of HasBody / Read / Close.
@@ -75,6 +76,9 @@ func VerifC17Probe() {
 	if zv.Choose("fails", 2) == 1 {
 		src.term = errC17Src
 		src.failAt = zv.Choose("failAt", n+1)
+	}
+	if zv.Choose("close-fails", 2) == 1 {
+		src.closeErr = errC17Src
 	}
 	r := &http.Request{Header: http.Header{}, Body: src}
 	switch zv.Choose("declared", 3) {
@@ -137,7 +141,7 @@ func VerifC17Probe() {
 			err := r.Body.Close()
 			if !closed {
 				zv.Reach("close")
-				zv.Assert("first-close-ok", err == nil)
+				zv.Assert("first-close-reports-the-underlying-result", err == src.closeErr)
 			}
 			closed = true
 			zv.Assert("underlying-closed-exactly-once", src.closed == 1)
